@@ -22,6 +22,7 @@ type subscriptionDict map[string]*subscriptionEntry
 
 func (sd subscriptionDict) Clean(key string) {
 	if subEntry, ok := sd[key]; ok {
+		subEntry.closeTok = simhook.Fork()
 		go subEntry.Close()
 		delete(sd, key)
 	}
@@ -175,6 +176,7 @@ func (g *Gateway) subscriptionHandler(w http.ResponseWriter, r *http.Request) {
 
 			subDict[subMsg.ID] = subEntry
 
+			subEntry.listenTok = simhook.Fork()
 			go subEntry.Listen(conn)
 
 		// Stop running operations
